@@ -214,6 +214,7 @@ def judge_history(hist, part, deep=True):
     twin = _copy.copy(reg)
     handles = [reg, twin]
     captured = []  # (probe, step, Unit object, facts at capture)
+    fork = None
     held = []  # (spelling, step, quantity 6.0 <spelling> created then, facts then)
     kinds = []
     for step, op in enumerate(hist):
@@ -325,6 +326,21 @@ def judge_history(hist, part, deep=True):
                 esc = core.escaped_from_library(e)
                 out.append((f"C12:arithmetic-raises:{type(e).__name__}", {"history": hist[: step + 1], "error": str(e)[:160], "where": esc}))
                 return out
+        # a deep copy taken mid-history is a registry of its own: it keeps answering with the contents it was copied with,
+        # whatever the original has memoised before or is edited to afterwards
+        if fork is None and step == (len(hist) - 1) // 2 and len(hist) >= 2:
+            fork = (_copy.deepcopy(reg) if len(hist) % 2 else _copy.deepcopy(unyt_quantity(1.0, "foo*s" if model.resolve("foo") else "m/s", registry=reg)).units.registry, _copy.deepcopy(model), step)
+        elif fork is not None:
+            freg, fmodel, fstep = fork
+            for probe in PROBES:
+                exp = _eval_probe(fmodel, probe)
+                obs = observe(freg, probe)
+                bad_ = (exp is None) != (obs[0] == "unknown") or (exp is not None and (obs[2] != exp[1] or abs(obs[1] / exp[0] - 1) > 1e-12))
+                if not bad_ and obs[0] == "unit" and Unit(probe, registry=freg).registry is not freg:
+                    bad_ = True
+                if bad_:
+                    out.append((f"C12:deep-copy-follows-the-original:{edit_kind}", {"history": hist[: step + 1], "copied_after_step": fstep, "probe": probe, "got": obs, "want_from_contents_at_copy": exp}))
+                    return out
         kinds.append(edit_kind)
     # non-trivial: construct -> edit -> construct of the same or a derived spelling
     if len(hist) >= 2 and any(k in ("mod", "rm") or (k == "add") for k in kinds[1:]):
